@@ -28,6 +28,92 @@ class BreakEx(Exception):
     pass
 
 
+class ContinueEx(Exception):
+    pass
+
+
+class IterSym:
+    """an iterator pipeline over ranges / array elements: `frames` are its bound variables with their ranges, `item` the value it yields"""
+    def __init__(self, frames, item):
+        self.frames, self.item = list(frames), item
+
+    def __repr__(self):
+        return "IterSym(%s, %r)" % ([f[0] for f in self.frames], self.item)
+
+
+def mentions(comp, sym):
+    import re as _re
+    return _re.search(r"(?<![A-Za-z0-9_$])%s(?![A-Za-z0-9_])" % _re.escape(sym), comp) is not None
+
+
+def comp_rel(a, b, loops):
+    """relation of two index components: '=' (identical), '!' (provably different), '?' (unknown)"""
+    if a == b:
+        return "="
+    def strip(x):
+        return x[4:] if x.startswith("1 + ") else None
+    # constants
+    try:
+        if Fr(a) != Fr(b):
+            return "!"
+    except (ValueError, ZeroDivisionError):
+        pass
+    if strip(a) == b or strip(b) == a:
+        return "!"          # x + 1  vs  x
+    for x, y in ((a, b), (b, a)):
+        r = loops.get(x)
+        if r is not None:
+            lo, hi = r[0], r[1]
+            if lo == "1 + " + y or hi == y:
+                return "!"  # x in y+1..  or  x in ..y
+            ry = loops.get(y)
+            if ry is not None and (ry[1] == x):
+                return "!"
+    return "?"
+
+
+def may_alias(i1, i2, loops):
+    if len(i1) != len(i2):
+        return True
+    return not any(comp_rel(a, b, loops) == "!" for a, b in zip(i1, i2))
+
+
+def big_op(op, frames, body, polys):
+    """Σ / Π over the frames' ranges with the bound variables renamed canonically (κ1, κ2, ... by nesting depth)"""
+    from ..interp import fn_n
+    ren = {f[0]: "κ%d" % (i + 1) for i, f in enumerate(frames)}
+
+    def r(p):
+        def f(a):
+            if a[0] == "v" and not a[2] and a[1] in ren:
+                return Poly.var(ren[a[1]])
+            if a[0] == "v" and a[2]:
+                new = tuple(_rename_comp(c, ren) for c in a[2])
+                if new != a[2]:
+                    return Poly.atom(("v", a[1], new))
+            return None
+        return p.subst(f)
+    b = r(body)
+    c = Fr(1)
+    if op == "Σ" and b.t:
+        # Σ is linear: the rational content (coefficient of the first monomial in canonical order) is moved in front
+        m0 = sorted(b.t, key=repr)[0]
+        c = b.t[m0]
+        b = b.scale(1 / c)
+    parts = [b]
+    for f in frames:
+        lo, hi = polys[f[0]]
+        parts += [r(lo), r(hi)]
+    return fn_n(DOMK, op, *parts).scale(c)
+
+
+def _rename_comp(c, ren):
+    import re as _re
+    for k, v in ren.items():
+        c = _re.sub(r"(?<![A-Za-z0-9_$])%s(?![A-Za-z0-9_])" % _re.escape(k), v, c)
+    return c
+
+
 def idx_str(v):
     v = unref(v)
     if isinstance(v, Sc):
@@ -42,7 +128,7 @@ class ElemPlace:
         self.it, self.arr, self.idx = interp, arr, idx
 
     def atom(self):
-        return Sc(Poly.var(self.arr.name, self.idx))
+        return Sc(self.it.read(self.arr.name, self.idx))
 
     def place_get(self, k):
         return self.atom()
@@ -64,11 +150,47 @@ class LoopInterp(Interp):
         self.n_arrays = 0
         self.loop_ids = {}
         self.loop_ranges = {}
+        self.loop_polys = {}
         self.scalar_mode = True
+        self.store = {}       # (array, index tuple) -> (value, frames at the write): store-to-load forwarding of element writes
+        self.writes = None    # {frames prefix: [(array, index tuple)]} of ALL paths (first pass); None = forwarding disabled
+        self.closure_ids = {}
+        self.closure_counter = 0
+
+    def read(self, name, idx):
+        """value of an element: the value written earlier in the same iteration when no write of an enclosing loop level (any
+        iteration, any path) may alias it; otherwise the atom `name[idx]` (= the element's current value)"""
+        ent = self.store.get((name, idx))
+        cur = tuple(self.frames)
+        if ent is not None and self.writes is not None and ent[1] == cur[:len(ent[1])]:
+            ok = True
+            for d in range(len(ent[1]) + 1, len(cur) + 1):
+                for (a2, i2) in self.writes.get(cur[:d], ()):
+                    if a2 == name and may_alias(i2, idx, self.loop_ranges):
+                        ok = False
+            if ok:
+                return ent[0]
+        return Poly.var(name, idx)
 
     def record(self, name, idx, rhs):
-        self.updates.append({"frames": tuple(self.frames), "arr": name, "idx": idx, "rhs": rhs,
+        cur = tuple(self.frames)
+        self.updates.append({"frames": cur, "arr": name, "idx": idx, "rhs": rhs,
                              "cond": tuple(d for (k, d, b, f) in self.ctx.trace if True)})
+        for (a2, i2) in list(self.store):
+            if a2 == name and i2 != idx and may_alias(i2, idx, self.loop_ranges):
+                del self.store[(a2, i2)]
+        self.store[(name, idx)] = (rhs, cur)
+
+    def leave_frame(self, frame):
+        """a loop is left: values of elements indexed by its variable are out of scope; elements it may have written in other
+        iterations are unknown"""
+        sym = frame[0]
+        cur = tuple(self.frames) + (frame,)
+        inner = (self.writes or {}).get(cur, ())
+        for (a2, i2) in list(self.store):
+            if any(mentions(c, sym) for c in i2) or len(self.store[(a2, i2)][1]) >= len(cur) or \
+                    any(a3 == a2 and may_alias(i3, i2, self.loop_ranges) for (a3, i3) in inner):
+                del self.store[(a2, i2)]
 
     # ---- arrays
     def index_of(self, e, env):
@@ -80,7 +202,10 @@ class LoopInterp(Interp):
         base, idx = self.index_of(e, env)
         if isinstance(base, ArrV):
             i = idx_str(idx)
-            return Sc(Poly.var(base.name, i if isinstance(i, tuple) else (i,)))
+            i = i if isinstance(i, tuple) else (i,)
+            if base.view and base.view[0] == "diag":
+                return Sc(self.read(base.view[1], (i[0], i[0])))
+            return Sc(self.read(base.name, i))
         if isinstance(base, Tup):
             return base.vs[0] if isinstance(idx, Sc) else self.unsupported("tuple index", e)
         return Interp.ev_index(self, e, env)
@@ -100,14 +225,29 @@ class LoopInterp(Interp):
                 return Sc(Poly.sym("n"))
             if name == "shape":
                 return Tup([Sc(Poly.sym("n")), Sc(Poly.sym("n"))])
-            if name in ("to_owned", "clone", "view", "view_mut", "diag", "column", "row"):
-                return ArrV("%s.%s" % (a0.name, name)) if name in ("diag", "column", "row") else a0
+            if name in ("to_owned", "clone") and a0.view:
+                return ArrV(a0.name)           # a copy of the viewed elements: an array of its own
+            if name == "diag":
+                v = ArrV("%s.diag" % a0.name)
+                v.view = ("diag", a0.name)
+                return v
+            if name in ("to_owned", "clone", "view", "view_mut", "column", "row"):
+                return ArrV("%s.%s" % (a0.name, name)) if name in ("column", "row") else a0
+            if name in ("iter", "into_iter") and len(args) == 1 and (a0.view is None or a0.view[0] == "diag"):
+                sym = self.closure_sym(e)
+                fr = (sym, "0", "n", False)
+                self.loop_ranges[sym] = ("0", "n", False, tuple(f[0] for f in self.frames))
+                self.loop_polys[sym] = (Poly.const(0), Poly.sym("n"))
+                k = Poly.var(sym)
+                item = self.read(a0.view[1], (sym, sym)) if a0.view else self.read(a0.name, (sym,))
+                return IterSym([fr], Sc(item))
             if name == "swap" and len(args) == 3:
                 i, j = idx_str(args[1]), idx_str(args[2])
                 i = i if isinstance(i, tuple) else (i,)
                 j = j if isinstance(j, tuple) else (j,)
-                self.record(a0.name, i, Poly.var(a0.name, j))
-                self.record(a0.name, j, Poly.var(a0.name, i))
+                vi_, vj_ = self.read(a0.name, i), self.read(a0.name, j)
+                self.record(a0.name, i, vj_)
+                self.record(a0.name, j, vi_)
                 return UNIT
             if name in ("column_mut", "column") and len(args) == 2:
                 v = ArrV("%s.col[%s]" % (a0.name, idx_str(args[1])))
@@ -128,21 +268,79 @@ class LoopInterp(Interp):
         if isinstance(a0, Rec) and a0.adt.startswith("std::Range") and name == "collect":
             self.n_arrays += 1
             return ArrV("new%d" % self.n_arrays, init=("iota", unref(a0.f["start"]).v.show(), unref(a0.f["end"]).v.show()))
-        if isinstance(a0, Rec) and a0.adt.startswith("std::Range") and name == "map" and len(args) == 2:
-            return Rec("std::MapRange", {"range": a0, "f": args[1]})
-        if isinstance(a0, Rec) and a0.adt == "std::MapRange" and name in ("product", "sum"):
-            rng = a0.f["range"]
-            k = Sc(Poly.var("k"))
-            val = unref(self.call_closure(unref(a0.f["f"]), [k], e))
-            if not isinstance(val, Sc):
-                self.unsupported("mapped range element", e)
-            from ..interp import fn_n
-            return Sc(fn_n(self.dom, "%s_over_k" % name, val.v, unref(rng.f["start"]).v, unref(rng.f["end"]).v))
+        if isinstance(a0, Rec) and a0.adt in ("std::Range",) and name in ("map", "flat_map", "for_each", "fold", "sum", "product", "filter_map"):
+            lo, hi = unref(a0.f["start"]), unref(a0.f["end"])
+            sym = self.closure_sym(e)
+            fr = (sym, lo.v.show(), hi.v.show(), "rev" in a0.f)
+            self.loop_ranges[sym] = (lo.v.show(), hi.v.show(), "rev" in a0.f, tuple(f[0] for f in self.frames))
+            self.loop_polys[sym] = (lo.v, hi.v)
+            a0 = IterSym([fr], Sc(Poly.var(sym)))
+        if isinstance(a0, IterSym):
+            return self.itersym_method(a0, name, args, e)
         if isinstance(a0, Rec) and a0.adt in ("std::Range", "std::RangeInclusive") and name == "rev":
             return Rec(a0.adt, dict(a0.f, rev=BoolV(True)))
         if name == "into_iter" and isinstance(a0, Rec) and a0.adt.startswith("std::Range"):
             return a0
         return Interp.leaf_call(self, name, path, ipath, c, args, e)
+
+    def closure_sym(self, e):
+        """bound variable of an iterator pipeline stage: numbered by the syntactic position of the call"""
+        k = self.closure_ids.get(id(e))
+        if k is None:
+            k = 800 + self.closure_counter
+            self.closure_counter += 1
+        return "w%d" % k
+
+    def in_frames(self, frames, thunk):
+        n0 = len(self.frames)
+        self.frames.extend(frames)
+        try:
+            return thunk()
+        finally:
+            for fr in reversed(self.frames[n0:]):
+                self.frames.pop()
+                self.leave_frame(fr)
+
+    def itersym_method(self, it, name, args, e):
+        if name in ("copied", "cloned", "into_iter", "iter", "by_ref") and len(args) == 1:
+            return it
+        if name == "rev" and len(args) == 1 and len(it.frames) == 1:
+            f = it.frames[0]
+            return IterSym([(f[0], f[1], f[2], not f[3])], it.item)
+        if name == "map" and len(args) == 2:
+            return IterSym(it.frames, self.in_frames(it.frames, lambda: self.call_closure(unref(args[1]), [it.item], e)))
+        if name == "flat_map" and len(args) == 2:
+            r = unref(self.in_frames(it.frames, lambda: self.call_closure(unref(args[1]), [it.item], e)))
+            if isinstance(r, Rec) and r.adt == "std::Range":
+                self.unsupported("flat_map to a bare range", e)
+            if not isinstance(r, IterSym):
+                self.unsupported("flat_map result %r" % (r,), e)
+            return IterSym(list(it.frames) + list(r.frames), r.item)
+        if name == "for_each" and len(args) == 2:
+            self.in_frames(it.frames, lambda: self.call_closure(unref(args[1]), [it.item], e))
+            return UNIT
+        if name in ("sum", "product") and len(args) == 1:
+            v = unref(it.item)
+            if not isinstance(v, Sc):
+                self.unsupported("%s of non-scalar items" % name, e)
+            return Sc(big_op("Σ" if name == "sum" else "Π", it.frames, v.v, self.loop_polys))
+        if name == "fold" and len(args) == 3:
+            init = unref(args[1])
+            index_like = isinstance(init, Sc) and all(a[0] == "v" and not a[2] and (a[1] == "n" or a[1][0] in "vw") for a in init.v.atoms())
+            if isinstance(init, Sc) and not index_like:
+                acc = Poly.var("$acc")
+                v = unref(self.in_frames(it.frames, lambda: self.call_closure(unref(args[2]), [Sc(acc), it.item], e)))
+                if isinstance(v, Sc):
+                    d = v.v - acc
+                    if not d.t:
+                        return init
+                    if ("v", "$acc", ()) not in d.atoms_deep():
+                        return Sc(init.v + big_op("Σ", it.frames, d, self.loop_polys))      # additive accumulation
+                    # not additive (selection / running extremum): one symbolic iteration, like a scalar updated in a for loop
+                    return Sc(v.v.subst(lambda a: init.v if a == ("v", "$acc", ()) else None))
+            v = self.in_frames(it.frames, lambda: self.call_closure(unref(args[2]), [args[1], it.item], e))
+            return v
+        self.unsupported("iterator method %s" % name, e)
 
     def call_body(self, body, args, e=None):
         # a call of another verified routine of the module (solve) is kept as a summary: `solve(b)`
@@ -192,18 +390,25 @@ class LoopInterp(Interp):
         self.loop_counter += 1
         lo, hi = unref(rng.f["start"]), unref(rng.f["end"])
         self.loop_ranges[sym] = (lo.v.show(), hi.v.show(), "rev" in rng.f, tuple(f[0] for f in self.frames))
-        self.frames.append((sym, lo.v.show(), hi.v.show(), "rev" in rng.f))
+        self.loop_polys[sym] = (lo.v, hi.v)
+        fr = (sym, lo.v.show(), hi.v.show(), "rev" in rng.f)
+        self.frames.append(fr)
         if not self.bind(pat, Sc(Poly.var(sym)), env):
             self.unsupported("for pattern", e)
         try:
             self.ev(some_arm["body"], env)
-        except BreakEx:
+        except (BreakEx, ContinueEx):
             pass
-        self.frames.pop()
+        finally:
+            self.frames.pop()
+            self.leave_frame(fr)
         return UNIT
 
     def ev_break(self, e, env):
         raise BreakEx()
+
+    def ev_continue(self, e, env):
+        raise ContinueEx()
 
     def compare(self, op, a, b):
         # comparisons of index expressions that differ by a constant are decided; everything else is a free decision
@@ -226,17 +431,36 @@ def updates_of(F, body, args_fn, max_paths=256, roles=None):
     for node in _walk.walk_body(body):
         if is_for(node) and node["scrut"].get("k") == "call" and (_walk.callee_of(node["scrut"]) or {}).get("name") == "into_iter":
             loop_ids[id(node)] = len(loop_ids)
+    closure_ids = {}
+    for node in _walk.walk_body(body):
+        if node.get("k") == "mcall" and node.get("m") in ("map", "flat_map", "for_each", "fold", "sum", "product", "iter", "into_iter", "filter_map"):
+            closure_ids[id(node)] = len(closure_ids)
     paths = []
+    writes = [None]
 
     def thunk(ctx):
         it = LoopInterp(F, ctx)
         it.loop_ids = loop_ids
+        it.closure_ids = closure_ids
+        it.writes = writes[0]
         v = None
         try:
             v = it.call_body(body, args_fn())
             return v
         finally:
-            paths.append({"ctx": ctx, "value": v, "updates": it.updates, "events": it.events, "loops": it.loop_ranges})
+            paths.append({"ctx": ctx, "value": v, "updates": it.updates, "events": it.events, "loops": it.loop_ranges, "polys": it.loop_polys})
+    # first pass (no forwarding): the write patterns of every loop level over all paths
+    explore(thunk, max_paths=max_paths)
+    w = {}
+    for p in paths:
+        for u in p["updates"]:
+            for d in range(1, len(u["frames"]) + 1):
+                lst = w.setdefault(u["frames"][:d], [])
+                if (u["arr"], u["idx"]) not in lst:
+                    lst.append((u["arr"], u["idx"]))
+    writes[0] = w
+    del paths[:]
+    # second pass: element reads are forwarded from earlier writes of the same iteration where no loop level in between may alias
     explore(thunk, max_paths=max_paths)
     all_updates, events = [], []
     inits = {}
@@ -322,6 +546,92 @@ def expect(chk, key, rule, F, body, updates, wanted, arrays):
            required="the update statements of the textbook scheme (and no others on %s)" % sorted(arrays))
 
 
+def compose_path(updates, polys):
+    """per-path effect summary: for every written element (array, index, enclosing loops that index it) the value it holds after
+    the statements of one iteration — sequential statements on one element are composed, additive accumulations over inner loops
+    that do not index the element become Σ terms.  Independent of how the statements are grouped in the source."""
+    groups = {}
+    for u in updates:
+        Fr_, arr, idx, rhs = u["frames"], u["arr"], u["idx"], u["rhs"]
+        tgt = ("v", arr, idx)
+        k = len(Fr_)
+        while k > 0 and not any(mentions(c, Fr_[k - 1][0]) for c in idx):
+            k -= 1
+        acc, outer = Fr_[k:], Fr_[:k]
+        key = (arr, idx, outer)
+        if acc:
+            d = rhs - Poly.atom(tgt)
+            if tgt not in d.atoms_deep():
+                prev = groups.get(key, Poly.atom(tgt))
+                groups[key] = prev + big_op("Σ", acc, d, polys)
+                continue
+            key = (arr, idx, Fr_)      # loop-carried and not additive: a statement of the inner level (one symbolic iteration)
+        prev = groups.get(key)
+        if prev is not None:
+            rhs = rhs.subst(lambda a: prev if a == tgt else None)
+        groups[key] = rhs
+    return groups
+
+
+def composed(paths):
+    """{(array, index, outer frames): [distinct composed values over all paths]}"""
+    out = {}
+    for pp in paths:
+        polys = dict(pp.get("polys") or {})
+        for key, val in compose_path(pp["updates"], polys).items():
+            lst = out.setdefault(key, [])
+            if not any(equal(val, x) for x in lst):
+                lst.append(val)
+    return out
+
+
+def show_group(key, val):
+    arr, idx, outer = key
+    return "%s%s = %s  per iteration of %s" % (arr, list(idx), val.show()[:200], [f[0] + ":" + f[1] + ".." + f[2] + ("(rev)" if f[3] else "") for f in outer])
+
+
+def expect_groups(chk, key, rule, F, body, paths, wanted, arrays):
+    """wanted: [(array, index, outer frames, value)] — every wanted element value must be produced (on some path) and no other
+    value may be produced for the listed arrays"""
+    found = composed(paths)
+    missing, extra, n_found = [], [], 0
+    for arr, idx, outer, val in wanted:
+        vals = found.get((arr, tuple(idx), tuple(outer)), [])
+        if any(equal(val, x) for x in vals):
+            n_found += 1
+        else:
+            missing.append(show_group((arr, tuple(idx), tuple(outer)), val))
+    for k, vals in found.items():
+        if k[0] not in arrays:
+            continue
+        for v in vals:
+            if not any(w[0] == k[0] and tuple(w[1]) == k[1] and tuple(w[2]) == k[2] and equal(w[3], v) for w in wanted):
+                extra.append(show_group(k, v))
+    # the scheme is recognised when the elements it updates (array, index, enclosing loops) are the ones the routine updates;
+    # a different VALUE for such an element is a deviation, other elements altogether are another organisation of the routine
+    keys_w = {(w[0], tuple(w[1]), tuple(w[2])) for w in wanted}
+    present = sum(1 for k in keys_w if k in found)
+    if wanted and present * 2 < len(keys_w):
+        chk.undecide(key, "unsupported: the routine does not follow the recognised scheme (%d of %d element updates found)" % (
+            n_found, len(wanted)), body_loc(F, body))
+        return False
+    chk.ob(key, not missing and not extra, rule, body_loc(F, body),
+           found=("missing: %s; " % missing[:3] if missing else "") + ("unexpected: %s" % extra[:3] if extra else "") or
+           "%d element updates match" % len(wanted),
+           required="the element updates of the textbook scheme (and no others on %s)" % sorted(arrays))
+    return True
+
+
+def sigma(lo, hi, body_fn):
+    """Σ_{κ1 in lo..hi} body(κ1) in the canonical form of big_op"""
+    return big_op("Σ", [("κ1", "", "", False)], body_fn("κ1"), {"κ1": (lo, hi)})
+
+
+def pi(lo, hi, body_fn):
+    from ..interp import fn_n
+    return fn_n(DOMK, "Π", body_fn("κ1"), lo, hi)
+
+
 def role_map(pairs):
     """pairs: list of (value, role) -> {array name: role}"""
     m = {}
@@ -356,44 +666,47 @@ def run_loops(chk, F):
     else:
         try:
             ups, ev, paths = updates_of(F, body, lambda: [ArrV("A")], roles=lu_roles)
-            # the loop symbols: outer pivot loop = the loop that encloses the elimination updates
-            elim = [u for u in ups if u["arr"] == "A" and len(u["frames"]) == 3]
+            groups = composed(paths)
+            # the loop symbols: the elimination update a[j,k] (three enclosing loops, indexed by the two inner ones)
+            elim = [k for k in groups if k[0] == "A" and len(k[2]) == 3 and k[1] == (k[2][1][0], k[2][2][0])]
             if not elim:
-                chk.ob("loops|lu-new", False, "LU::new eliminates below the pivot", body_loc(F, body), found=describe(ups)[:4])
+                chk.undecide("loops|lu-new", "unsupported: no elimination update a[j,k] inside three nested loops recognised", body_loc(F, body))
             else:
-                vi, vj, vk = (f[0] for f in elim[0]["frames"])
+                vi, vj, vk = (f[0] for f in elim[0][2])
                 f1 = (vi, "0", n, False)
                 fj = (vj, "1 + " + vi, n, False)
                 fk = (vk, "1 + " + vi, n, False)
-                # row of the maximum: the loop symbol of the pivot search (a loop over vi..n inside the pivot loop)
-                swaps = [u for u in ups if u["arr"] == "A" and len(u["frames"]) == 2 and u["frames"][0][0] == vi and u["idx"][0] == vi]
+                mult = A("A", vj, vi) * A("A", vi, vi).recip()
                 wanted = [
-                    ("A", (vj, vi), A("A", vj, vi) * A("A", vi, vi).recip(), [f1, fj]),
-                    ("A", (vj, vk), A("A", vj, vk) - A("A", vj, vi) * A("A", vi, vk), [f1, fj, fk]),
+                    ("A", (vj, vi), [f1, fj], mult),
+                    ("A", (vj, vk), [f1, fj, fk], A("A", vj, vk) - mult * A("A", vi, vk)),
                 ]
+                # row exchange: a[i, c] over a column loop c inside the pivot loop, taken from row m
+                swaps = [(k, v) for k, vals in groups.items() for v in vals
+                         if k[0] == "A" and len(k[2]) == 2 and k[2][0][0] == vi and k[1][0] == vi and k[1][1] == k[2][1][0]]
                 vm = None
                 if swaps:
-                    vc = swaps[0]["frames"][1][0]
-                    src = [a for a in swaps[0]["rhs"].atoms() if a[0] == "v" and a[1] == "A"]
-                    if len(src) == 1:
+                    vc = swaps[0][0][2][1][0]
+                    src = [a_ for a_ in swaps[0][1].atoms() if a_[0] == "v" and a_[1] == "A"]
+                    if len(src) == 1 and src[0][2][1] == vc:
                         vm = src[0][2][0]
                         fc = (vc, "0", n, False)
-                        wanted += [("A", (vi, vc), A("A", vm, vc), [f1, fc]), ("A", (vm, vc), A("A", vi, vc), [f1, fc]),
-                                   ("P", (vi,), A("P", vm), [f1]), ("P", (vm,), A("P", vi), [f1])]
+                        wanted += [("A", (vi, vc), [f1, fc], A("A", vm, vc)), ("A", (vm, vc), [f1, fc], A("A", vi, vc)),
+                                   ("P", (vi,), [f1], A("P", vm)), ("P", (vm,), [f1], A("P", vi))]
                 # initial permutation: identity (explicit loop or (0..n).collect())
-                p_iota = any(isinstance(unref(pp["value"]), object) and any(
-                    getattr(a, "init", None) == ("iota", "0", n) and pp["roles"].get(a.name) == "P" for a in arr_names(pp["value"], []))
-                    for pp in paths if pp["value"] is not None)
-                init_updates = [u for u in ups if u["arr"] == "P" and len(u["frames"]) == 1 and u["frames"][0][1:] == ("0", n, False)
-                                and u["idx"] == (u["frames"][0][0],) and equal(u["rhs"], A(u["frames"][0][0]))]
-                for u in init_updates:
-                    wanted.append(("P", u["idx"], u["rhs"], list(u["frames"])))
-                expect(chk, "loops|lu-new", "LU::new is Doolittle elimination with partial pivoting, statement by statement: whole-row "
-                       "exchange with the pivot row, l_ji = a_ji / a_ii, a_jk -= l_ji a_ik for j, k > i", F, body, ups, wanted, {"A", "P"})
+                p_iota = any(any(getattr(a_, "init", None) == ("iota", "0", n) and pp["roles"].get(a_.name) == "P" for a_ in arr_names(pp["value"], []))
+                             for pp in paths if pp["value"] is not None)
+                inits = [k for k, vals in groups.items() if k[0] == "P" and len(k[2]) == 1 and k[2][0][1:] == ("0", n, False)
+                         and k[1] == (k[2][0][0],) and any(equal(v, A(k[2][0][0])) for v in vals)]
+                for k in inits:
+                    wanted.append(("P", k[1], list(k[2]), A(k[2][0][0])))
+                expect_groups(chk, "loops|lu-new", "LU::new is Doolittle elimination with partial pivoting: whole-row exchange with the pivot "
+                              "row, l_ji = a_ji / a_ii, a_jk -= l_ji a_ik for j, k > i (element values per iteration, however the statements are grouped)",
+                              F, body, paths, wanted, {"A", "P"})
                 chk.ob("loops|lu-new|row-exchange", vm is not None, "the pivot row found by the search is exchanged with row i over all columns",
-                       body_loc(F, body), found=describe(swaps)[:2], nontrivial=False)
-                chk.ob("loops|lu-new|identity-permutation", bool(p_iota or init_updates), "the permutation starts as the identity",
-                       body_loc(F, body), found="iota" if p_iota else describe(init_updates)[:1], nontrivial=False)
+                       body_loc(F, body), found=[show_group(k, v) for k, v in swaps][:2], nontrivial=False)
+                chk.ob("loops|lu-new|identity-permutation", bool(p_iota or inits), "the permutation starts as the identity",
+                       body_loc(F, body), found="iota" if p_iota else [show_group(k, A(k[2][0][0])) for k in inits][:1], nontrivial=False)
                 # pairing per path: row exchange, permutation exchange and the parity counter move together
                 bad = []
                 for pp in paths:
@@ -412,6 +725,7 @@ def run_loops(chk, F):
                 chk.ob("loops|lu-new|pairing", not bad, "on every path the row exchange, the permutation exchange and the parity counter "
                        "(+1 per exchange, starting at n) are updated together", body_loc(F, body), found=sorted(set(bad))[:3] or "%d paths consistent" % len(paths))
                 chk.count("loop-body update statements checked", len(wanted))
+                lu_guard(chk, F, body, paths, vi)
         except Unsupported as ex:
             chk.undecide("loops|lu-new", "unsupported: %s" % ex, body_loc(F, body))
     # ------------------------------------------------------------------ solve
@@ -421,22 +735,24 @@ def run_loops(chk, F):
     else:
         try:
             ups, ev, paths = updates_of(F, body, lambda: [lu_self(), ArrV("b")], roles=lambda v: role_map([(v, "X")]))
-            xs = sorted({u["frames"][0][0] for u in ups if u["arr"] == "X"})
-            fw = [u for u in ups if u["arr"] == "X" and len(u["frames"]) == 2 and not u["frames"][0][3]]
-            bw = [u for u in ups if u["arr"] == "X" and len(u["frames"]) == 2 and u["frames"][0][3]]
-            wanted = []
-            if fw and bw:
-                v0, v1 = fw[0]["frames"][0][0], fw[0]["frames"][1][0]
-                v2, v3 = bw[0]["frames"][0][0], bw[0]["frames"][1][0]
+            groups = composed(paths)
+            fw = [k for k in groups if k[0] == "X" and len(k[2]) == 1 and not k[2][0][3] and k[1] == (k[2][0][0],)]
+            bw = [k for k in groups if k[0] == "X" and len(k[2]) == 1 and k[2][0][3] and k[1] == (k[2][0][0],)]
+            if len(fw) != 1 or len(bw) != 1:
+                chk.undecide("loops|lu-solve", "unsupported: no forward (ascending) and backward (descending) pass over the solution recognised",
+                             body_loc(F, body))
+            else:
+                v0, v2 = fw[0][2][0][0], bw[0][2][0][0]
                 wanted = [
-                    ("X", (v0,), A("b", "self.p[%s]" % v0), [(v0, "0", n, False)]),
-                    ("X", (v0,), A("X", v0) - A("self.a", v0, v1) * A("X", v1), [(v0, "0", n, False), (v1, "0", v0, False)]),
-                    ("X", (v2,), A("X", v2) - A("self.a", v2, v3) * A("X", v3), [(v2, "0", n, True), (v3, "1 + " + v2, n, False)]),
-                    ("X", (v2,), A("X", v2) * A("self.a", v2, v2).recip(), [(v2, "0", n, True)]),
+                    ("X", (v0,), [(v0, "0", n, False)],
+                     A("b", "self.p[%s]" % v0) - sigma(Poly.const(0), Poly.var(v0), lambda k: A("self.a", v0, k) * A("X", k))),
+                    ("X", (v2,), [(v2, "0", n, True)],
+                     (A("X", v2) - sigma(Poly.var(v2) + 1, Poly.sym("n"), lambda k: A("self.a", v2, k) * A("X", k))) * A("self.a", v2, v2).recip()),
                 ]
-            expect(chk, "loops|lu-solve", "solve is forward substitution with the unit lower factor on the permuted right-hand side followed "
-                   "by back substitution with division by the pivots", F, body, ups, wanted or [("X", ("?",), Poly(), [])], {"X"})
-            chk.count("loop-body update statements checked", len(wanted))
+                expect_groups(chk, "loops|lu-solve", "solve is forward substitution with the unit lower factor on the permuted right-hand side "
+                              "(x_i = b_p(i) - sum_{k<i} l_ik x_k) followed by back substitution (x_i = (x_i - sum_{k>i} u_ik x_k) / u_ii)",
+                              F, body, paths, wanted, {"X"})
+                chk.count("loop-body update statements checked", 4)
         except Unsupported as ex:
             chk.undecide("loops|lu-solve", "unsupported: %s" % ex, body_loc(F, body))
     # ------------------------------------------------------------------ inverse
@@ -448,34 +764,41 @@ def run_loops(chk, F):
             ups, ev, paths = updates_of(F, body, lambda: [lu_self()], roles=lambda v: role_map([(v, "IA")]))
             if inverse_by_solve(chk, F, body, ups, ev, paths):
                 raise StopIteration
-            fw = [u for u in ups if u["arr"] == "IA" and len(u["frames"]) == 3 and not u["frames"][1][3]]
-            bw = [u for u in ups if u["arr"] == "IA" and len(u["frames"]) == 3 and u["frames"][1][3]]
-            wanted = []
-            if fw and bw:
-                vc, v1, v2 = (f[0] for f in fw[0]["frames"])
-                _, v3, v4 = (f[0] for f in bw[0]["frames"])
+            groups = composed(paths)
+            fw = [k for k in groups if k[0] == "IA" and len(k[2]) == 2 and not k[2][1][3] and k[1] == (k[2][1][0], k[2][0][0])]
+            bw = [k for k in groups if k[0] == "IA" and len(k[2]) == 2 and k[2][1][3] and k[1] == (k[2][1][0], k[2][0][0])]
+            if len(fw) != 1 or len(bw) != 1:
+                chk.undecide("loops|lu-inverse", "unsupported: no column loop with a forward and a backward pass recognised", body_loc(F, body))
+            else:
+                vc, v1 = fw[0][2][0][0], fw[0][2][1][0]
+                v3 = bw[0][2][1][0]
                 f0 = (vc, "0", n, False)
+                fsum = sigma(Poly.const(0), Poly.var(v1), lambda k: A("self.a", v1, k) * A("IA", k, vc))
                 wanted = [
-                    ("IA", (v1, vc), Poly.const(1), [f0, (v1, "0", n, False)]),
-                    ("IA", (v1, vc), Poly.const(0), [f0, (v1, "0", n, False)]),
-                    ("IA", (v1, vc), A("IA", v1, vc) - A("self.a", v1, v2) * A("IA", v2, vc), [f0, (v1, "0", n, False), (v2, "0", v1, False)]),
-                    ("IA", (v3, vc), A("IA", v3, vc) - A("self.a", v3, v4) * A("IA", v4, vc), [f0, (v3, "0", n, True), (v4, "1 + " + v3, n, False)]),
-                    ("IA", (v3, vc), A("IA", v3, vc) * A("self.a", v3, v3).recip(), [f0, (v3, "0", n, True)]),
+                    ("IA", (v1, vc), [f0, (v1, "0", n, False)], Poly.const(1) - fsum),
+                    ("IA", (v1, vc), [f0, (v1, "0", n, False)], -fsum),
+                    ("IA", (v3, vc), [f0, (v3, "0", n, True)],
+                     (A("IA", v3, vc) - sigma(Poly.var(v3) + 1, Poly.sym("n"), lambda k: A("self.a", v3, k) * A("IA", k, vc))) * A("self.a", v3, v3).recip()),
                 ]
-            expect(chk, "loops|lu-inverse", "inverse solves A X = I column by column with the same substitution scheme as solve "
-                   "(right-hand side: the permuted unit vector)", F, body, ups, wanted or [("IA", ("?",), Poly(), [])], {"IA"})
-            # the unit right-hand side is the PERMUTED identity: entry (i, j) is one exactly when p[i] == j
-            rhs_ok = False
-            if wanted:
+                expect_groups(chk, "loops|lu-inverse", "inverse solves A X = I column by column with the same substitution scheme as solve "
+                              "(right-hand side: the permuted unit vector)", F, body, paths, wanted, {"IA"})
+                # the unit right-hand side is the PERMUTED identity: entry (i, j) starts from one exactly when p[i] == j
+                rhs_ok, seen = False, set()
                 for pp in paths:
-                    ones = [u for u in pp["updates"] if u["arr"] == "IA" and u["rhs"].const_value() == 1]
-                    conds = [d for (k, d, b, f) in pp["ctx"].trace if b]
-                    if ones and any(d.replace(" ", "") == ("self.p[%s]==%s" % (v1, vc)) for d in conds):
-                        rhs_ok = True
-            chk.ob("loops|lu-inverse|rhs", rhs_ok, "the right-hand side of column j is e_{i : p[i] = j} (row i of the permuted identity)",
-                   body_loc(F, body), found="unit entries set under: %s" % sorted({d for pp in paths for (k, d, b, f) in pp["ctx"].trace if b})[:3],
-                   required="p[i] == j")
-            chk.count("loop-body update statements checked", len(wanted) + 1)
+                    g = compose_path(pp["updates"], dict(pp.get("polys") or {}))
+                    val = g.get(("IA", (v1, vc), (f0, (v1, "0", n, False))))
+                    if val is None:
+                        continue
+                    conds = {d.replace(" ", ""): b for (k, d, b, f) in pp["ctx"].trace}
+                    want_c = "self.p[%s]==%s" % (v1, vc)
+                    alt_c = "%s==self.p[%s]" % (vc, v1)
+                    c = conds.get(want_c, conds.get(alt_c))
+                    one = equal(val, Poly.const(1) - fsum)
+                    seen.add((c, one))
+                rhs_ok = seen == {(True, True), (False, False)}
+                chk.ob("loops|lu-inverse|rhs", rhs_ok, "the right-hand side of column j is e_{i : p[i] = j} (row i of the permuted identity)",
+                       body_loc(F, body), found="(p[i] == j decided, entry starts from one): %s" % sorted(seen, key=str), required="one exactly when p[i] == j")
+                chk.count("loop-body update statements checked", 6)
         except StopIteration:
             pass
         except Unsupported as ex:
@@ -488,7 +811,7 @@ def run_loops(chk, F):
         try:
             ups, ev, paths = updates_of(F, body, lambda: [lu_self()])
             from ..interp import fn_n
-            det = fn_n(DOMK, "product_over_k", A("self.a", "k", "k"), Poly.const(0), Poly.sym("n"))
+            det = pi(Poly.const(0), Poly.sym("n"), lambda k: A("self.a", k, k))
             par = fn_n(DOMK, "rem", A("self.p_count") - Poly.sym("n"), Poly.const(2))
             ok = len(paths) == 2
             found = []
@@ -679,6 +1002,40 @@ def all_atoms(p, out=None):
     return out
 
 
+def fn_parts(arg, n):
+    """inverse of interp.fn_n's encoding: the n argument forms of an n-ary opaque function"""
+    parts = [Poly() for _ in range(n)]
+    for m, c in arg.t.items():
+        which = [a for a, e in m if a[0] == "c" and a[1].startswith("#")]
+        if len(which) != 1:
+            return None
+        k = int(which[0][1][1:]) - 1
+        if k >= n:
+            return None
+        m2 = tuple((a, e) for a, e in m if a != which[0])
+        parts[k] = parts[k] + Poly({m2: c})
+    return parts
+
+
+def sigma_ranges(p, out=None):
+    """{bound variable: (lo, hi)} of every Σ inside a form, with the atoms of the summands"""
+    out = [] if out is None else out
+    for a in p.atoms():
+        if a[0] == "f" and a[1] == "Σ":
+            for nb in (1, 2, 3):
+                parts = fn_parts(a[2], 1 + 2 * nb)
+                if parts is not None and any(parts[-1].t or parts[-2].t for _ in [0]):
+                    rng = {"κ%d" % (i + 1): (parts[1 + 2 * i].show(), parts[2 + 2 * i].show()) for i in range(nb)}
+                    out.append((rng, all_atoms(parts[0])))
+                    sigma_ranges(parts[0], out)
+                    break
+        elif a[0] == "f":
+            sigma_ranges(a[2], out)
+        elif a[0] == "u":
+            sigma_ranges(a[1], out)
+    return out
+
+
 def jacobi_control(chk, F, body, paths, P, Q):
     """control conditions of the Jacobi sweeps that are necessary for the result: (1) the iteration stops early only on a quantity
     that covers the whole strict upper triangle; (2) a rotation divides by a_pq and is only performed on paths that exclude a_pq = 0;
@@ -702,7 +1059,18 @@ def jacobi_control(chk, F, body, paths, P, Q):
         names = {a[1] for a in ats}
         idx = {a[2] for a in ats}
         found = d
-        if len(idx) == 1 and names <= {"A"}:
+        sig = sigma_ranges(pz) if pz is not None else []
+        if len(idx) == 1 and names <= {"A"} and sig:
+            # written as a sum over an iterator pipeline: the ranges are those of the Σ's bound variables
+            (r_, c_), = idx
+            rng = sig[0][0]
+            lr = rng.get(r_, (None, None)) + (False, (c_,))
+            lc = rng.get(c_, (None, None)) + (False, (r_,))
+            upper1 = lc[:2] == ("0", "n") and lr[:2] == ("0", c_)
+            upper2 = lr[:2] == ("0", "n") and lc[:2] == ("1 + " + r_, "n")
+            cover_ok = upper1 or upper2
+            found = "%s with %s in %s..%s, %s in %s..%s" % (d[:80], r_, lr[0], lr[1], c_, lc[0], lc[1])
+        elif len(idx) == 1 and names <= {"A"}:
             (r_, c_), = idx
             lr, lc = loops.get(r_), loops.get(c_)
             if lr and lc:
@@ -811,3 +1179,99 @@ def inverse_by_solve(chk, F, body, ups, events, paths):
            required="ia[:, j] = solve(e_j) for j in 0..n")
     chk.count("loop-body update statements checked", 6)
     return True
+
+
+def nonzero_facts(trace):
+    """keys of quantities a path has excluded from being zero: is_zero(X) false, X == 0 false, 0 < X / X <= 0 false (X an absolute value)"""
+    zero = Poly.const(0).key()
+    out = set()
+    for (key, d, b, f) in trace:
+        if key[0] == "pred" and key[1] == "is_zero" and not b:
+            out.add(key[2])
+        elif key[0] == "cmp" and key[1] == "==" and not b and zero in (key[2], key[3]):
+            out.add(key[2] if key[3] == zero else key[3])
+        elif key[0] == "cmp" and key[1] == "<=" and not b and key[3] == zero:
+            out.add(key[2])          # not(X <= 0)
+        elif key[0] == "cmp" and key[1] == "<" and b and key[2] == zero:
+            out.add(key[3])          # 0 < X
+    return out
+
+
+def lu_guard(chk, F, body, paths, vi):
+    """singular-pivot guard, decided on the interpreted paths of LU::new: (present) some path returns Err; (dominates) every path that
+    divides by the pivot a[i,i] has excluded that the tested magnitude M is zero; (max) M = |a[m,i]| with m from a search over the
+    remaining rows i..n, and the pivot that is divided by IS that element (m = i, or rows m and i were exchanged)"""
+    from ..interp import Res
+    from .common import _poly_from_key_cache as cache
+    loc = body_loc(F, body)
+    errs = [pp for pp in paths if isinstance(unref(pp["value"]), Res) and not unref(pp["value"]).ok]
+    chk.ob("lu|guard|present", bool(errs), "LU::new reports a zero pivot column as an error", loc, found="%d error path(s)" % len(errs),
+           nontrivial=False)
+    pivot = Poly.var("A", (vi, vi))
+    bad_dom, bad_max, n_div, unknown = [], [], 0, 0
+    for pp in paths:
+        divides = any(u["arr"] == "A" and len(u["frames"]) >= 2 and has_neg_power(u["rhs"], ("v", "A", (vi, vi))) for u in pp["updates"])
+        if not divides:
+            continue
+        n_div += 1
+        nz = nonzero_facts(pp["ctx"].trace)
+        tested = []
+        for k in nz:
+            pk = cache.get(k)
+            if pk is None:
+                continue
+            ats = all_atoms(pk)
+            if ats and all(a[1] in ("A",) or a[1] in pp["roles"] and pp["roles"][a[1]] == "A" for a in ats):
+                tested.append((pk, ats))
+        if not tested:
+            bad_dom.append(path_descr(pp["ctx"])[:140])
+            continue
+        # the tested magnitude is |a[m, i]| with m searched over i..n, and the divisor is that element
+        ok_max = False
+        for pk, ats in tested:
+            idxs = {a[2] for a in ats}
+            if len(idxs) != 1:
+                continue
+            (m_, c_), = idxs
+            if c_ != vi:
+                bad_max.append("the tested element is a[%s,%s], not an element of the pivot column %s" % (m_, c_, vi))
+                continue
+            if m_ == vi:
+                ok_max = True
+                continue
+            rng = pp["loops"].get(m_)
+            if rng is None or rng[0] != vi or rng[1] != "n":
+                bad_max.append("the pivot search runs over %s in %s..%s" % (m_, rng[0] if rng else "?", rng[1] if rng else "?"))
+                continue
+            same = any(key[0] == "cmp" and key[1] == "==" and b and {key[2], key[3]} == {Poly.var(m_).key(), Poly.var(vi).key()}
+                       for (key, d, b, f) in pp["ctx"].trace)
+            swapped = any(u["arr"] == "A" and u["idx"][0] == vi and len(u["frames"]) == 2 and equal(u["rhs"], Poly.var("A", (m_, u["idx"][1])))
+                          for u in pp["updates"])
+            if same or swapped:
+                ok_max = True
+            else:
+                bad_max.append("the tested element a[%s,%s] is not the pivot that is divided by (no row exchange, %s != %s possible)" % (m_, vi, m_, vi))
+        if not ok_max and not bad_max:
+            unknown += 1
+    if n_div == 0:
+        chk.undecide("lu|guard|dominates", "unsupported: no division by the pivot recognised in LU::new", loc)
+        return
+    chk.ob("lu|guard|dominates", not bad_dom, "every path of LU::new that divides by the pivot a[i,i] has excluded a zero pivot magnitude "
+           "(singular matrices are reported, never divided by)", loc, found=sorted(set(bad_dom))[:2] or "%d dividing paths guarded" % n_div)
+    if unknown and not bad_max:
+        chk.undecide("lu|guard|max", "unsupported: the guarded quantity is not of the recognised form |a[m,i]|", loc)
+    else:
+        chk.ob("lu|guard|max", not bad_max, "the guarded quantity is |a[m,i]| for the row m found by the search over the remaining rows i..n, "
+               "and that element is the pivot divided by (m = i or rows exchanged)", loc, found=sorted(set(bad_max))[:2] or "search over %s..n" % vi)
+
+
+def has_neg_power(p, atom):
+    for m, c in p.t.items():
+        for a, e in m:
+            if a == atom and (e[0] < 0 or e[1] != 0):
+                return True
+            if a[0] == "u" and has_neg_power(a[1], atom):
+                return True
+            if a[0] == "f" and has_neg_power(a[2], atom):
+                return True
+    return False
